@@ -740,6 +740,47 @@ pub fn gen_pipe_drop_sweep(rng: &mut Rng) -> Program {
     finish(prog, &g)
 }
 
+/// C11: the last owner of the target is released at every scheduling point of the thread that *notifies* the input
+/// (the pipe upgrades its weak reference there for a moment), while every pool thread is stalled: whatever the pipe does
+/// with an owner it finds itself holding must not depend on the pool.
+pub fn gen_pipe_in_wake_drop_sweep(rng: &mut Rng) -> Program {
+    let pool_max = rng.range(1, 2) as usize;
+    let mut g = Gen::new(rng, 1 + pool_max);
+    let (o, s) = (0, 0);
+    let mut t0 = vec![];
+    let mut tb = vec![];
+    for i in 0..pool_max {
+        let started = g.n_gates;
+        let gate = g.n_gates + 1;
+        g.n_gates += 2;
+        tb.push({ let __k = OpKind::Desync { o: 1 + i, body: vec![Step::OpenGate(started), Step::BlockOn(gate)] }; g.op(__k) });
+        t0.push({ let __k = OpKind::WaitGate { g: started }; g.op(__k) });
+    }
+    let ready = g.n_gates;
+    g.n_gates += 1;
+    let n_pre = g.rng.range(0, 2) as usize;
+    for i in 0..n_pre {
+        t0.push({ let __k = OpKind::Push { s, item: 10 + i as u32 }; g.op(__k) });
+    }
+    let mut body = vec![];
+    if g.rng.permille(300) {
+        body.push(Step::Yield(1));
+    }
+    t0.push({ let __k = OpKind::PipeIn { o, s, body }; g.op(__k) });
+    t0.push({ let __k = OpKind::OpenGate { g: ready }; g.op(__k) });
+    let injector = vec![{ let __k = OpKind::SweepWait; g.op(__k) }, { let __k = OpKind::DropObj { o }; g.op(__k) }, { let __k = OpKind::SweepDone; g.op(__k) }];
+    let mut env = vec![{ let __k = OpKind::WaitGate { g: ready }; g.op(__k) }, { let __k = OpKind::Mark; g.op(__k) }];
+    let n_post = g.rng.range(1, 3) as usize;
+    for i in 0..n_post {
+        env.push({ let __k = OpKind::Push { s, item: 20 + i as u32 }; g.op(__k) });
+    }
+    let mut prog = base_program(pool_max, 1 + pool_max);
+    prog.n_streams = 1;
+    prog.prespawn = g.rng.permille(300);
+    prog.phases = vec![Phase { ctl: vec![], threads: vec![tb, t0, injector], env_gates: vec![], env_streams: env }];
+    finish(prog, &g)
+}
+
 /// C07 / C08: every pool thread is inside a job that awaits a future of another, untouched object.  Nobody else can run
 /// those objects' queues: the polling (pool) thread has to, or everything deadlocks.
 pub fn gen_nested_saturated(rng: &mut Rng) -> Program {
